@@ -212,7 +212,7 @@ class SArr(_nd):
         return SArr(_raw(self), dt)
 
     def copy(self, order='C'):
-        r = _nd.copy(_raw(self)).view(SArr)
+        r = _nd.copy(_raw(self), order=order).view(SArr)
         r.ldtype = self.ldtype
         return r
 
